@@ -1141,6 +1141,64 @@ fn self_check(sh: &mut Shard) {
     }
 }
 
+// =====================================================================================
+// densify / length where the SQUARE of a segment length leaves the f64 range (scales 2^-600..2^-520, 2^520..2^600).
+// Polylines of Pythagorean-triple steps scaled by a power of two: every segment length is exactly k*2^e
+// (hypot is exact there); lengths are not squares, so nothing here needs to leave the range.
+// =====================================================================================
+pub fn check_extreme_scale(sh: &mut Shard, steps: &[(i64, i64)], e: i32, pieces: u32, verbose: bool) {
+    use geo::algorithm::line_measures::Length;
+    let s = crate::q::pow2(e);
+    let mut pts = vec![Coord { x: 0.0, y: 0.0 }];
+    let (mut x, mut y) = (0i64, 0i64);
+    let mut total_units = 0i64;
+    for &(dx, dy) in steps {
+        x += dx;
+        y += dy;
+        pts.push(Coord { x: x as f64 * s, y: y as f64 * s });
+        total_units += int_len(dx, dy).expect("Pythagorean step");
+    }
+    let ls = LineString::new(pts.clone());
+    let longest = steps.iter().map(|&(dx, dy)| int_len(dx, dy).unwrap()).max().unwrap();
+    // max so that the longest segment must be cut in exactly `pieces` parts (a quarter of a piece of slack)
+    let maxd = longest as f64 * s / (pieces as f64 - 0.25);
+    let det = |check: &str, exp: String, got: String| json!({"property": "C15", "check": check, "part": "extreme_scale", "steps": steps, "e": e, "pieces": pieces, "max": maxd, "expected": exp, "got": got, "line": format!("{:?}", pts)});
+    sh.eval(1);
+    match call(|| Euclidean.length(&ls)) {
+        Ok(l) => {
+            let exp = total_units as f64 * s;
+            if !((l - exp).abs() <= 4.0 * f64::EPSILON * exp) {
+                sh.violation("length.extreme_scale|LineString|-", det("length.extreme_scale", format!("{:e}", exp), format!("{:e}", l)));
+            }
+        }
+        Err(p) => sh.violation("length.extreme_scale.panic|LineString|-", det("length.extreme_scale.panic", "no panic".into(), p)),
+    }
+    sh.eval(1);
+    match call(|| Euclidean.densify(&ls, maxd)) {
+        Ok(out) => {
+            if verbose {
+                println!("densify -> {} coordinates", out.0.len());
+            }
+            // every original vertex kept in order, no segment longer than max, total length unchanged
+            let mut it = out.0.iter();
+            let kept = pts.iter().all(|p| it.any(|q| same_bits(*p, *q)));
+            let seg = |a: &Coord<f64>, b: &Coord<f64>| (b.x - a.x).hypot(b.y - a.y);
+            let worst = out.0.windows(2).map(|w| seg(&w[0], &w[1])).fold(0.0f64, f64::max);
+            let total: f64 = out.0.windows(2).map(|w| seg(&w[0], &w[1])).sum();
+            let exp_total = total_units as f64 * s;
+            if !kept {
+                sh.violation("densify.extreme_scale.vertices_kept|LineString|-", det("densify.vertices_kept", "every original vertex, in order".into(), format!("{:?}", out.0)));
+            } else if !(worst <= maxd * (1.0 + 1e-9)) {
+                sh.violation("densify.extreme_scale.max_segment|LineString|-", det("densify.max_segment", format!("no segment longer than {:e}", maxd), format!("a segment of length {:e} ({} coordinates)", worst, out.0.len())));
+            } else if !((total - exp_total).abs() <= 1e-9 * exp_total) {
+                sh.violation("densify.extreme_scale.length|LineString|-", det("densify.length", format!("{:e}", exp_total), format!("{:e}", total)));
+            }
+        }
+        Err(p) => sh.violation("densify.extreme_scale.panic|LineString|-", det("densify.panic", "a densified line string".into(), p)),
+    }
+    sh.class(if e < 0 { "densify:scale_where_squares_underflow" } else { "densify:scale_where_squares_overflow" });
+}
+
 pub fn run(ctx: &Ctx, sh: &mut Shard) {
     self_check(sh);
     for k in ctx.case_indices() {
@@ -1150,6 +1208,13 @@ pub fn run(ctx: &Ctx, sh: &mut Shard) {
         ctx.mark_case(k);
         let mut r = Rng::derive(ctx.seed, ctx.shard, k);
         sh.cases += 1;
+        if k % 64 == 9 {
+            let n = r.range(1, 4) as usize;
+            let steps: Vec<(i64, i64)> = (0..n).map(|_| { let t = *r.pick(&TRIPLES); let (a, b) = if r.chance(1, 2) { t } else { (t.1, t.0) }; (a * if r.chance(1, 2) { 1 } else { -1 }, b * if r.chance(1, 2) { 1 } else { -1 }) }).collect();
+            let e = if r.chance(1, 2) { r.range(-600, -520) } else { r.range(520, 600) } as i32;
+            check_extreme_scale(sh, &steps, e, r.range(2, 7) as u32, false);
+            continue;
+        }
         if r.chance(11, 20) {
             interp_case(sh, &mut r);
         } else {
@@ -1159,6 +1224,11 @@ pub fn run(ctx: &Ctx, sh: &mut Shard) {
 }
 
 pub fn replay(v: &Value, sh: &mut Shard) {
+    if v["part"] == "extreme_scale" {
+        let steps: Vec<(i64, i64)> = v["steps"].as_array().unwrap().iter().map(|p| (p[0].as_i64().unwrap(), p[1].as_i64().unwrap())).collect();
+        check_extreme_scale(sh, &steps, v["e"].as_i64().unwrap() as i32, v["pieces"].as_u64().unwrap() as u32, true);
+        return;
+    }
     let lat = Lat::from_json(&v["lat"]);
     if v["part"] == "densify" {
         let g = IG::from_json(&v["g"]).expect("g");
